@@ -111,7 +111,7 @@ func specDeltaDecode(src []byte, width uint) (out []int64, ok bool) {
 
 func VerifH_C04_deltaInt32() {
 	vUnwind(140)
-	n := vChoose("n", 0, 2+vTier())
+	n := vChoose("n", 0, 2)
 	src := make([]int32, n)
 	for i := range src {
 		src[i] = vI32("v")
